@@ -400,6 +400,50 @@ def known_findings(pid):
     return [e for e in data.get("known", []) if e.get("property") == pid]
 
 
+# ---------------------------------------------------------------------------
+# Source fingerprints: when the code a property is anchored in differs (comments and white space aside)
+# from the text the committed models were last validated against, a quick run that found nothing goes on
+# with the thorough generator.  This can never raise an alarm by itself; it only buys search effort where
+# the tree has changed.  fingerprints.json is written by `./check --record-fingerprints` only.
+# ---------------------------------------------------------------------------
+
+def _strip_c(text):
+    text = re.sub(r"/\*.*?\*/", " ", text, flags=re.S)
+    text = re.sub(r"//[^\n]*", " ", text)
+    return re.sub(r"\s+", " ", text).strip()
+
+
+def anchored_files(pid):
+    for line in open(os.path.join(VERIF, "properties.jsonl")):
+        line = line.strip()
+        if not line:
+            continue
+        rec = json.loads(line)
+        if rec.get("id") == pid:
+            return sorted(rec.get("anchors", {}).get("files", []))
+    return []
+
+
+def source_fingerprint(pid):
+    h = hashlib.sha256()
+    for f in anchored_files(pid):
+        path = os.path.join(REPO, f)
+        h.update(f.encode() + b"\0")
+        try:
+            h.update(_strip_c(open(path, errors="replace").read()).encode())
+        except OSError:
+            h.update(b"<missing>")
+        h.update(b"\0")
+    return h.hexdigest()
+
+
+def recorded_fingerprint(pid):
+    p = os.path.join(VERIF, "fingerprints.json")
+    if not os.path.exists(p):
+        return None
+    return json.load(open(p)).get(pid)
+
+
 class Result:
     def __init__(self):
         self.evaluations = 0
